@@ -3,6 +3,7 @@
 EXTRA_BUILDS = {}
 
 HOOK_COMMITS = ["7bc0d60"]
+FIX_COMMITS = ["243874c"]
 
 NOT_APPLICABLE = {}
 
@@ -28,5 +29,89 @@ CHECKS = {
         "level_note": "trusted: the harness's sequential model and the crate's own WAL/snapshot/MANIFEST readers used by checker L; "
                       "configurations outside the grid and histories longer than ~90 ops are not explored",
         "technique": "runtime monitoring: model-based differential oracle + invariant checkers over seeded histories",
+    },
+    "C04": {
+        "level": "exploration",
+        "rule": "one case = seeded (cache strategy in {LRU, learned untrained, learned trained, learned+semantic, A/B} x document-cache "
+                "capacity {1,2,16} x query-cache capacity x recent-write-tier soft/hard limits x metric x dimension x persistence x "
+                "background audit task) + seeded sequential history of writes, deletes, metadata updates, bulk loads, forced/threshold/"
+                "emergency drains, searches and adversarial pokes (stale or corrupt entries planted in the document cache and the "
+                "recent-write tier through public APIs); after EVERY step all 8 read flavours over the whole id universe are compared "
+                "bit-exactly with the sequential model, and after drains a copy of the directory is recovered and compared. "
+                "distinct_nontrivial = distinct (configuration, history) pairs using >= 4 step kinds",
+        "legs": [
+            {"name": "reads-after-every-step", "argv": ["c04"], "shards": 16},
+            {"name": "reads-orphan-pokes", "argv": ["c04"], "args": {"orphans": 1}, "shards": 16},
+            {"name": "reads-background-audit", "argv": ["c04"], "args": {"background": 1}, "shards": 16},
+        ],
+        "assumptions": COMMON_ASSUME + ["pokes are applied through public APIs only (CacheStrategy::insert_cached, HotTier::insert_with_coherence)",
+                                         "128-bit digest collisions are not generated"],
+        "min_evaluations": 100,
+        "level_text": "model-based runtime monitoring of every read flavour after every step of thousands of seeded sequential histories per "
+                      "run, across all cache strategies and tiny capacities, including deliberately planted stale/corrupt cache and mirror "
+                      "entries; exploration of histories and configurations, not proof",
+        "level_note": "trusted: the sequential model; the background-audit cases are not exactly replayable (free-running task); histories <= 70 steps",
+        "technique": "runtime monitoring: per-step read differential against a reference model with fault (stale-entry) injection",
+    },
+    "C20": {
+        "level": "exploration",
+        "rule": "same histories as C04 (main leg): after every operation the size of every underlying document cache (per cache for A/B), "
+                "of the query-result cache and - when an insert has returned - of the recent-write tier is compared with its configured "
+                "bound (capacities {1,2,16}, hard limits {1,2,3,8,2000}); every evicted/drained document must stay readable bit-exactly. "
+                "distinct_nontrivial = distinct (configuration, history) pairs using >= 4 step kinds",
+        "legs": [{"name": "reads-after-every-step", "argv": ["c20"], "shards": 16}],
+        "assumptions": COMMON_ASSUME + ["bounds are read through public accessors (CacheStrategy::size, QueryHashCache::len, HotTier::len)"],
+        "min_evaluations": 100,
+        "level_text": "invariant monitoring (size bounds and content preservation) after every step of thousands of seeded histories per run "
+                      "over all strategies with capacities 1/2/16 and hard limits down to 1; exploration, not proof",
+        "level_note": "sizes are observed at operation boundaries of a sequential history (the property's own observation point); "
+                      "transient over-capacity inside an operation is not observable and not claimed",
+        "technique": "runtime monitoring: invariant assertions on hooked sizes after every operation + read differential",
+    },
+    "C11": {
+        "level": "exploration",
+        "rule": "three legs. histories: seeded history (insert/overwrite/merge+replace updates flipping values between numeric and string/"
+                "delete/batch delete/tombstone compaction/recovery) over metadata drawn from ~55 value classes (integers, decimals, "
+                "exponents, +-0, +-inf, NaN, leading +, whitespace, empty, non-ASCII, 10 kB strings, numeric look-alikes); after every step "
+                "24-40 seeded filter trees (depth 0-4, incl. empty forms and NOT without operand) are evaluated three ways: index-backed "
+                "ids_for_metadata_filter, scan(matches), independent reference evaluator over the model. exhaustive: every filter tree up to "
+                "depth 2 over a reduced alphabet against a fixed collection with tombstones. filtered-delete: TieredEngine::"
+                "batch_delete_by_metadata_filter judged by the resulting collection, with bulk loads over documents that have a recent-write "
+                "mirror. distinct_nontrivial = distinct histories with >= 3 op kinds where some filter selected a proper non-empty subset, "
+                "plus distinct exhaustive filters selecting a proper subset",
+        "legs": [
+            {"name": "histories", "argv": ["c11"], "args": {"leg": "histories"}, "shards": 16},
+            {"name": "exhaustive", "argv": ["c11"], "args": {"leg": "exhaustive"}, "shards": 16},
+            {"name": "filtered-delete", "argv": ["c11"], "args": {"leg": "filtered-delete"}, "shards": 16},
+        ],
+        "assumptions": COMMON_ASSUME + ["numeric means Rust's str::parse::<f64> succeeds on both sides (the documented rule); the reference evaluator is written independently of metadata_filter.rs"],
+        "min_evaluations": 1000,
+        "exhaustive_key": "exhaustive_leaf_count",
+        "level_text": "three-way differential monitoring (index vs predicate vs independent reference) over seeded histories and an exhaustive "
+                      "enumeration of all depth<=2 filter trees on a reduced alphabet; exploration for histories, exhaustive small scope for trees",
+        "level_note": "trusted: the harness reference evaluator; exhaustive only for the reduced alphabet and fixed collection of the exhaustive leg",
+        "technique": "runtime monitoring: three-way differential oracle over histories + exhaustive small-scope filter enumeration",
+    },
+    "C06": {
+        "level": "exploration",
+        "rule": "one case = seeded (dimension in {1,3,7,8,9,15,16,17,33} x metric x mode {mixed, heavy delete up to ~95% tombstones, tiny "
+                "capacity forcing tombstone compaction, larger collection} x recent-write-tier limits x ef_search x query-cache capacity) + "
+                "seeded history of writes/deletes/overwrites/drains with interleaved searches of all 5 flavours (sync, ef override, batch, "
+                "timed async, cold tier direct), k in {1,2,3,10,100,1000}, ef in {None,1,k,10000}; each result list is judged against the "
+                "sequential model and an f64 reference distance (count <= k, distinct, live, true distance within 1e-4+1e-4*d, sorted) and "
+                "every acknowledged recent-write-tier resident document strictly inside the k-th distance must be present; one leg per forced "
+                "SIMD kernel family (hook H1). distinct_nontrivial = distinct (configuration, history) pairs with >= 3 searches of >= 2 flavours",
+        "legs": [
+            {"name": "search-oracle[%s]" % k, "argv": ["c06"], "shards": 16, "env": {"KYRODB_VERIF_FORCE_KERNEL": k}}
+            for k in ("avx512", "avx2", "sse2", "scalar")
+        ],
+        "assumptions": COMMON_ASSUME + ["inputs avoid KyroDB's documented [0.98,1.02] squared-norm slack band (unit to 1e-5 or outside [0.90,1.10])",
+                                         "query-cache similarity threshold 1.0 in these runs (semantic hits are by design, see DESIGN 7)",
+                                         "responses under explicit degradation (timeout / breaker / shedding counters moved) are excluded from the completeness clause"],
+        "min_evaluations": 100,
+        "level_text": "per-result runtime oracle (reference model + f64 brute-force distance) on every search of thousands of seeded histories, "
+                      "with every available SIMD kernel forced in turn; exploration, not proof; recall itself is C16",
+        "level_note": "trusted: the f64 reference distance and the sequential model; absence of old (drained) documents is recall, not judged here",
+        "technique": "runtime monitoring: per-result oracle against reference model and brute-force distances, forced kernels",
     },
 }
